@@ -408,7 +408,24 @@ func (g *gen) boolExpr(sc *scope, t *Type, d int) (string, bool) {
 		}
 		return s
 	}
-	switch r.Intn(8) {
+	switch r.Intn(9) {
+	case 8:
+		// a length compared with a value one below, equal to, or one above it
+		var l string
+		if vs := g.varsOfKind(sc, KSlice); len(vs) > 0 && r.Intn(3) == 0 {
+			l = "len(" + pick(r, vs).name + ")"
+		} else if vs := sc.ofType(TString, false); len(vs) > 0 {
+			l = "len(" + pick(r, vs).name + ")"
+		} else {
+			l = "len(" + g.nonConst(pick(r, stringLits), TString) + ")"
+		}
+		x := "(" + l + " + " + g.nonConst(pick(r, []string{"(-1)", "0", "1"}), TInt) + ")"
+		op := pick(r, []string{"==", "!=", "<", "<=", ">", ">="})
+		g.feat("cmp-len")
+		if r.Intn(2) == 0 {
+			return conv("(" + x + " " + op + " " + l + ")"), false
+		}
+		return conv("(" + l + " " + op + " " + x + ")"), false
 	case 0:
 		return "!" + g.nc(sc, t, d-1), false
 	case 1:
@@ -508,6 +525,53 @@ func (g *gen) intExpr(sc *scope, t *Type, d int) (string, bool) {
 		g.feat("conv-" + under(from).Name + "-" + u.Name)
 		return t.Name + "(" + g.nc(sc, from, d-1) + ")", false
 	case 10:
+		if r.Intn(2) == 0 {
+			// conversion of a non-constant float at the edges of the target
+			// type (the value always fits: anything else is implementation-defined)
+			type edge struct {
+				lit      string
+				bits     int // smallest width that holds the value
+				negative bool
+				unsOnly  bool // fits only the unsigned type of that width
+			}
+			edges := []edge{
+				{"13835058055282163712.0", 64, false, true}, // 1.5 * 2^63
+				{"9223372036854775808.0", 64, false, true},  // 2^63
+				{"18446744073709549568.0", 64, false, true}, // 2^64 - 2048
+				{"9223372036854774784.0", 64, false, false}, // 2^63 - 1024
+				{"-9223372036854775808.0", 64, true, false},
+				{"4294967295.0", 32, false, true},
+				{"2147483648.0", 32, false, true},
+				{"2147483647.0", 32, false, false},
+				{"-2147483648.0", 32, true, false},
+				{"65535.0", 16, false, true},
+				{"-32768.0", 16, true, false},
+				{"255.0", 8, false, true},
+				{"-128.0", 8, true, false},
+				{"127.99", 8, false, false},
+				{"-0.99", 8, true, false},
+			}
+			var ok []edge
+			for _, e := range edges {
+				if e.bits > u.Bits || e.negative && u.Unsigned || e.unsOnly && !u.Unsigned && e.bits == u.Bits {
+					continue
+				}
+				ok = append(ok, e)
+			}
+			if len(ok) > 0 {
+				e := pick(r, ok)
+				ft := TFloat64
+				if e.bits <= 16 && r.Intn(2) == 0 {
+					ft = TFloat32
+				}
+				g.feat("conv-edge-" + ft.Name + "-" + u.Name)
+				lit := e.lit
+				if strings.HasPrefix(lit, "-") {
+					lit = "(" + lit + ")"
+				}
+				return t.Name + "(" + g.nonConst(ft.Name+"("+lit+")", ft) + ")", false
+			}
+		}
 		// conversion from a small float
 		var sf []*variable
 		for _, v := range sc.all() {
